@@ -351,6 +351,8 @@ def run(prop, tier, replay=None):
                                "what": "model layout differs between twins (contradicts theorem generate_twin)"},
                               no_input=True)
         check_codec_twins(rep, rng, tier)
+    if prop == "C14":
+        check_c_command(rep, rng, tier, descs, cases, mres)
     # ---- C05: frames packed per the layout decode through the DBC (cantools as second reader)
     if prop == "C05" and decode_jobs:
         check_decode(rep, rng, decode_jobs[: (200 if tier == "quick" else 3000)], cases, ires, mres)
@@ -467,3 +469,36 @@ def check_codec_twins(rep, rng, tier):
             rep.violation({"kind": "twin-codec", "schema": d.text(), "twin": tw.text(), "struct": name, "value": mv,
                            "observed": [a, b],
                            "what": "Python codec bytes change when field declarations are permuted (ids fixed)"})
+
+
+def check_c_command(rep, rng, tier, descs, cases, mres):
+    """C14, C side: `GeneratorManager.generate('can_c', ...)` on bindings around the limit"""
+    ks = [k for k in range(len(descs)) if k in mres and "driver_err" not in mres[k]]
+    ks = ks[: (120 if tier == "quick" else 1500)]
+    pre = {"stale_can.c": "int stale;", "notes.txt": "keep"}
+    jobs = [{"text": cases[k]["text"], "generator": "can_c", "pre": pre} for k in ks]
+    res = run_cases("harness.genmgr", "w_generate", jobs, timeout_s=120)
+    for k, r in zip(ks, res):
+        m = mres[k]
+        rep.cov["evaluations"] += 1
+        rep.hist("c_command", m.get("err", "fits"))
+        base = {"schema": cases[k]["text"], "model": m.get("err", "fits")}
+        if "ok" not in r:
+            rep.violation(dict(base, kind="harness", observed=r), no_input=True)
+            continue
+        o = r["ok"]
+        base["result"] = o["result"]
+        if m.get("err") in ("tooBig", "noLayout"):
+            if o["result"].get("ok") is True:
+                rep.cov["disagreements_checked"] += 1
+                rep.violation(dict(base, kind="c-not-rejected",
+                                   what="the C generation command succeeded on a CAN binding that does not fit a frame"))
+            elif o["before"] != o["after"]:
+                rep.cov["disagreements_checked"] += 1
+                rep.violation(dict(base, kind="c-emitted", after=sorted(o["after"]),
+                                   what="the C generation command failed but changed the output directory"))
+        elif "err" not in m:
+            if o["result"].get("ok") is False:
+                rep.cov["disagreements_checked"] += 1
+                rep.violation(dict(base, kind="c-unexpected-failure",
+                                   what="the C generation command failed although every CAN binding fits"), no_input=True)
